@@ -76,6 +76,7 @@ def eager_interp(repo, opaque_get_as_int=True, extra=None):
     I = _CACHE.get(key)
     if I is None:
         I = _CACHE[key] = Interp(repo)
+        I.module_skip = {"devices", "_cli", "cli", "__main__", "__init__"}   # top levels touching the OS: names resolved lazily
     s = dict(EAGER)
     if opaque_get_as_int:
         s["metacommand_impl::get_as_int"] = get_as_int_opaque
